@@ -14,6 +14,7 @@ from __future__ import annotations
 
 import ast as pyast
 import itertools
+import os
 import json
 import math
 import re
@@ -585,15 +586,20 @@ def parse_failing(out: str):
     return [int(x) for x in body.split(";")] if body else []
 
 
-def coq_shards(chk, name, decl_type, terms, check_fun, per=400):
+RUN_TAG = f"c12_{os.getpid()}"
+
+
+def coq_shards(chk, name, decl_type, terms, check_fun, per=500):
     """Evaluate `check_fun : decl_type -> bool` on every term; return the failing indexes."""
     shards = [terms[i:i + per] for i in range(0, len(terms), per)]
 
     def one(k):
         text = (HEADER + f"Definition cases : list ({decl_type}) :=\n  [ " + ";\n    ".join(shards[k]) + " ].\n"
                 + f"Eval vm_compute in (failing (map ({check_fun}) cases)).\n")
-        ok, out = chk.coq_eval(f"c12_{name}_{k}", text, timeout=600)
+        ok, out = chk.coq_eval(f"{RUN_TAG}_{name}_{k}", text, timeout=900)
         bad = parse_failing(out) if ok else None
+        if bad is not None and not bad:
+            cleanup_case(f"{RUN_TAG}_{name}_{k}")
         return k, ok, out, bad
 
     failing = []
@@ -607,8 +613,21 @@ def coq_shards(chk, name, decl_type, terms, check_fun, per=400):
     return failing, errors
 
 
+def cleanup_case(stem: str):
+    for ext in (".v", ".vo", ".vok", ".vos", ".glob"):
+        try:
+            (VERIF / "build" / "cases" / (stem + ext)).unlink()
+        except OSError:
+            pass
+    try:
+        (VERIF / "build" / "cases" / ("." + stem + ".aux")).unlink()
+    except OSError:
+        pass
+
+
 def model_answer(chk, expr_text: str) -> str:
-    ok, out = chk.coq_eval("c12_answer", HEADER + f"Eval vm_compute in ({expr_text}).\n", timeout=300)
+    ok, out = chk.coq_eval(f"{RUN_TAG}_answer", HEADER + f"Eval vm_compute in ({expr_text}).\n", timeout=300)
+    cleanup_case(f"{RUN_TAG}_answer")
     return out.strip()[-1500:]
 
 
@@ -813,6 +832,10 @@ def compare_with_model(chk, jobs, results, sendable, out):
     """Correspondence: the proved model and the implementation give the same answers."""
     # ---- parse_assignment
     idx = [i for i in sendable if jobs[i]["op"] == "parse" and is_model_domain(jobs[i]["s"])]
+    if chk.tier == "thorough":
+        # the random stream is 50 000 strings, almost all rejected: every accepted one and a
+        # 40 % sample of the rejected ones go to the model (all of them are judged directly)
+        idx = [i for i in idx if jobs[i].get("tag") != "malformed" or results[i]["k"] == "ok" or (i % 5) < 2]
     terms = [f"({cstr(jobs[i]['s'])}, {expected_pres(results[i], jobs[i]['s'])})" for i in idx]
     bad, errs = coq_shards(chk, "parse", "string * pres", terms,
                            "fun c => pres_eqb (parse_assignment (fst c)) (snd c)")
